@@ -114,6 +114,31 @@ def occurrences (s : Int) (period : Int) : Nat → List Int
   | 0 => []
   | n + 1 => s :: occurrences (s + period) period n
 
+/-! ### free-busy: `time_range_fill` and the occurrence limit of `free_busy_report` -/
+
+/-- `range_fn` of `time_range_fill` over a list of visited ranges: collect the overlapping ones; stop when `n > 0`
+    of them have been collected, or (main component only, `isRec = false`) when a range starts after the filter's
+    end.  Result: what has been collected, and whether the visit was cancelled. -/
+def fillRec (fs fe : Int) (n : Nat) (isRec : Bool) : List Range → List Range → List Range × Bool
+  | [], acc => (acc, false)
+  | r :: rs, acc =>
+    let acc' := if overlaps fs fe r then acc ++ [r] else acc
+    if (overlaps fs fe r && decide (n > 0) && decide (acc'.length ≥ n)) || (decide (fe < r.s) && !isRec) then (acc', true)
+    else fillRec fs fe n isRec rs acc'
+
+/-- overrides (RECURRENCE-ID components) are visited first, then the occurrences of the main component -/
+def timeRangeFill (fs fe : Int) (n : Nat) (overrides mainRanges : List Range) : List Range :=
+  let a := fillRec fs fe n true overrides []
+  if a.2 then a.1 else (fillRec fs fe n false mainRanges a.1).1
+
+/-- one event in `free_busy_report`: transparent events contribute nothing; otherwise up to `max + 1` occurrences
+    are collected and the report is refused (`none`) when `max` or more were found -/
+def fbEvent (isOpaque : Bool) (max : Nat) (fs fe : Int) (overrides mainRanges : List Range) : Option (List Range) :=
+  if !isOpaque then some []
+  else
+    let occ := timeRangeFill fs fe (if max > 0 then max + 1 else 0) overrides mainRanges
+    if occ.length ≥ max then none else some occ
+
 /-! ### RFC 4791 §9.9, written down independently -/
 namespace Rfc
 
